@@ -14,6 +14,9 @@ import (
 	"github.com/NethermindEth/juno/verifh/lib/chain"
 )
 
+// addresses events are emitted from (the generator's default contract pool)
+var eventAddrs = []uint64{0x100, 0x101, 0x200, 0x201, 0x7fff0, 0x7fff1}
+
 // sop is one scripted operation.
 type sop struct {
 	Kind string // S store, R revert, L set L1 head, W write filter snapshot, G graceful restart, U ungraceful restart
@@ -234,6 +237,16 @@ func consistent(F *chain.Node, want []*chain.Blk, st *chain.State, all []*chain.
 	if got, wantD := chain.EventsDigest(F.BC, nil, nil), chain.NaiveEventsDigest(want); got != wantD && len(want) > 0 {
 		add("event query over the chain returns %q, naive scan of the canonical receipts gives %q", got, wantD)
 	}
+	// address-filtered queries go through the bloom index (an unfiltered query does not)
+	if len(want) > 0 {
+		for _, a := range eventAddrs {
+			a := a
+			got := chain.EventsDigest(F.BC, []felt.Address{felt.Address(*chain.F(a))}, nil)
+			if wantD := chain.NaiveEventsDigestFrom(want, chain.F(a)); got != wantD {
+				add("event query for address 0x%x returns %q, naive scan of the canonical receipts gives %q", a, got, wantD)
+			}
+		}
+	}
 	if len(want) > 0 {
 		head := want[len(want)-1]
 		sr, closer, err := F.BC.HeadState()
@@ -294,6 +307,12 @@ func consistent(F *chain.Node, want []*chain.Blk, st *chain.State, all []*chain.
 			ext := append(append([]*chain.Blk{}, want...), &chain.Blk{Block: d.Block, SU: d.SU})
 			if got, wantD := chain.EventsDigest(F.BC, nil, nil), chain.NaiveEventsDigest(ext); got != wantD {
 				add("after one more block the event query returns %q, naive scan gives %q", got, wantD)
+			}
+			for _, a := range eventAddrs {
+				got := chain.EventsDigest(F.BC, []felt.Address{felt.Address(*chain.F(a))}, nil)
+				if wantD := chain.NaiveEventsDigestFrom(ext, chain.F(a)); got != wantD {
+					add("after one more block the event query for address 0x%x returns %q, naive scan gives %q", a, got, wantD)
+				}
 			}
 		}
 	}
